@@ -137,7 +137,7 @@ def parse_directive(block):
         raise AssembleError("bad extract header: " + head)
     d = {"file": m.group(1), "impl_re": m.group(2), "kind": m.group(3), "name": m.group(4).strip(),
          "ret": None, "rename": None, "prefix": "", "body": None, "auto": True, "canary": True,
-         "rewrites": [], "contract": "", "loops": {}, "before": [], "after": [], "top": "", "bottom": "", "after_loops": {}, "loop_ends": {}, "sig": None, "lift": None,
+         "rewrites": [], "contract": "", "loops": {}, "before": [], "after": [], "top": "", "bottom": "", "after_loops": {}, "loop_ends": {}, "loopkeys": {}, "sig": None, "lift": None,
          "class": "prop"}
     cur = None
     buf = []
@@ -192,6 +192,12 @@ def parse_directive(block):
                 d[k] = v not in ("off", "no", "false")
             else:
                 d[k] = v
+            continue
+        mm = re.match(r"loopkey\s+(\d+)\s+(" + _STR + r")\s*$", s)
+        if mm:
+            # loop n of this directive is THE loop whose header (keyword .. opening brace) contains this text, wherever it
+            # stands among the loops of the function (so that two loops that change places keep their own invariants)
+            d["loopkeys"][int(mm.group(1))] = _unq(mm.group(2))
             continue
         mm = re.match(r"loop\s+(\d+)(?:\s+iter\s+(\w+))?:\s*$", s)
         if mm:
@@ -415,10 +421,23 @@ def build_item(d, canary=False, repo=REPO):
         return out, meta
     # loops: insert from the last to the first so offsets stay valid
     loops = find_loops(body)
-    for n in sorted(set(d["loops"].keys()) | set(d["after_loops"].keys()) | set(d["loop_ends"].keys()), reverse=True):
-        if n < 1 or n > len(loops):
+    wanted = set(d["loops"].keys()) | set(d["after_loops"].keys()) | set(d["loop_ends"].keys())
+    actual = {}
+    for n in wanted:
+        if n in d["loopkeys"]:
+            key = d["loopkeys"][n]
+            idxs = [i for i, lp_ in enumerate(loops) if key in body[lp_["kw_pos"]:lp_["brace_pos"]]]
+            if len(idxs) != 1:
+                raise AssembleError("loop %d anchor lost in %s: %d loops have %r in their header" % (n, where, len(idxs), key))
+            actual[n] = idxs[0] + 1
+        else:
+            actual[n] = n
+    if len(set(actual.values())) != len(actual):
+        raise AssembleError("loop anchors of %s collide: %r" % (where, actual))
+    for n in sorted(wanted, key=lambda k: actual[k], reverse=True):
+        if actual[n] < 1 or actual[n] > len(loops):
             raise AssembleError("loop %d anchor lost in %s: function has %d loops" % (n, where, len(loops)))
-        lp = find_loops(body)[n - 1]  # recomputed: earlier insertions (inner loops) shift later offsets
+        lp = find_loops(body)[actual[n] - 1]  # recomputed: earlier insertions (inner loops) shift later offsets
         if n in d["after_loops"]:
             e = lp["end_pos"] + 1
             body = body[:e] + "\n" + d["after_loops"][n].rstrip() + "\n" + body[e:]
